@@ -11,6 +11,7 @@ import drv_epoch
 import drv_curvefit
 import drv_interp
 import drv_finders
+import drv_moon
 
 YMIN, YMAX = -4712, 6000
 
@@ -404,4 +405,49 @@ def plan_C13(tier, seed):
                      "Earth.passage_nodes has no event-reality clause: the Earth's heliocentric latitude of date is identically ~0"])
 
 
-PLANS = {"C13": plan_C13, "C12": plan_C12, "C17": plan_C17, "C02": plan_C02, "C03": plan_C03, "C04": plan_C04, "C10": plan_C10, "C01": plan_C01, "C16": plan_C16, "C19": plan_C19}
+def _nt_c15(ev):
+    if ev["k"] == "pos":
+        return ("pos", ev["tf"])
+    if ev["k"] == "q":
+        return (ev["f"], ev["tg"], round(ev["rf"], 3), ev["oc"])
+    return (ev["f"], ev["tg"], "ev", round(ev["rf"], 3))
+
+
+def plan_C15(tier, seed):
+    T = ("Trace_Moon", "Trace.cfg")
+    rng = random.Random(seed)
+    if tier == "quick":
+        starts, nd = [991000.5, 1721100.5, 2299000.5, 2451545.5, 3181000.5, 990600.5 + rng.randrange(2100000)], 400
+        daily = [-1999, -300, 1500, 1582, 2024, 3999]
+        fine = [-1000, 1000, 2900]
+        nev = 40
+    else:
+        starts, nd = [990600.5 + 36525.0 * 2 * i for i in range(30)], 3700
+        daily = [-1999, -1500, -1000, -300, 0, 100, 500, 1000, 1500, 1582, 1583, 1700, 1900, 2000, 2024, 2100, 3000, 3999]
+        fine = list(range(-1990, 3990, 330))
+        nev = 600
+    sh = [Shard("pos_%02d" % i, drv_moon.gen_pos, dict(j0=j, ndays=nd), *T) for i, j in enumerate(starts)]
+    for fn, tgs in drv_moon.TARGETS.items():
+        for t in tgs:
+            items = [("queries", dict(fn=fn, target=t, years=daily + [rng.randrange(-1999, 3999)], step_mode="daily", seed=seed)),
+                     ("queries", dict(fn=fn, target=t, years=fine, step_mode="fine", seed=seed)),
+                     ("queries", dict(fn=fn, target=t, years=list(range(-2000, 1600, 100)) + [1581, 1582, 1583, 1999, 2000, 2100, 3999 - 1],
+                                      step_mode="yearend", seed=seed)),
+                     ("events", dict(fn=fn, target=t, seed=seed, n=nev))]
+            sh.append(Shard("fnd_%s_%s" % (fn.replace("moon_", ""), t), drv_moon.gen_group, dict(items=items, seed=seed), *T))
+    return dict(
+        mc=[MC("MC_Finder", "MC_Finder.cfg", workers=4, heap="2g", note="abstract nearest-event finder protocol")],
+        shards=sh, level="model_checking", exhaustive=False, nontrivial=_nt_c15,
+        rule="Position: daily samples over windows across -2000..4000 (in order): distance, latitude, parallax = asin(6378.14/dist) "
+             "(sin witness), daily longitude advance, illuminated fraction vs the Sun-Earth-Moon triangle built by TLC from the "
+             "library's own apparent Moon and Sun positions (unit-vector and square-root witnesses verified by the spec), secular "
+             "rates of node and perigee as an action property over consecutive days. Finders (4 finders x 10 target strings): every "
+             "calendar day of the sample years in both calendars incl. 29 February of Julian century years, 1/20-period steps over "
+             "3-year windows; protocol (never backwards, one month apart, within 1.6 months, totality) and event reality from the "
+             "library's own positions (phase longitude 0.06 deg, distance/declination extremal inside +-0.25 d, latitude 0.02 deg, "
+             "reported declination 0.15 deg). Distinct case = distinct day sample / returned event per target.",
+        assumptions=["mean node / perigee rates -0.0529539 and +0.1114041 deg/day, tolerance 1e-3 deg/day",
+                     "gap ratio bounds in Finders.tla from the natural variation of the months (doubled)"])
+
+
+PLANS = {"C15": plan_C15, "C13": plan_C13, "C12": plan_C12, "C17": plan_C17, "C02": plan_C02, "C03": plan_C03, "C04": plan_C04, "C10": plan_C10, "C01": plan_C01, "C16": plan_C16, "C19": plan_C19}
